@@ -44,6 +44,7 @@ type Site struct {
 	Tmpl    string // "" = main template, else partial name
 	Line    int    // 1-based line, within Tmpl, of the tag that contains the call
 	TopLine int    // line in the main template of the tag through which it is reached (outermost partial call), 0 if unknown
+	AltLine int    // non-zero: the statement begins on this later line of a multi-statement tag; plush names the statement's line, the property text the tag's: both are accepted (DESIGN §16.4)
 	Class   string // position class
 	ElseIf  bool   // sits in an else-if condition (C15: ambiguous line)
 	Frames  int    // number of evaluator frames between the probe and its tag
@@ -66,6 +67,7 @@ type Program struct {
 	Tolerant    []TolerantUse // uses of the unbound identifier zz
 	Failing     string        // non-empty: a generated statement that fails on its own (kind)
 	FailLine    int
+	FailAltLine int      // see Site.AltLine
 	FailMarker  *Site    // nested natural failure: a probe evaluated in the same tag just before the failing operation (tells whether it ran)
 	Names       []string // every name the generator made up (let / loop / function variables)
 	Broken      string   // non-empty: the program contains this syntactically broken tag
@@ -108,25 +110,26 @@ type fnSig struct {
 }
 
 type genOpts struct {
-	probes      bool  // emit probes
-	probePct    int   // probability (percent) of wrapping an expression in a probe
-	mapRegions  bool  // emit for loops over a multi-entry Go map, inside region markers
-	pureMapBody bool  // ... with a probe-free body, so call order does not depend on the visiting order (C13/C14)
-	tolerant    bool  // emit uses of the unbound identifier zz
-	failing     bool  // may emit one naturally failing statement
-	failPct     int   // ... with this probability (default 100)
-	failNested  bool  // instead: one failing operation somewhere nested, guarded by a marker probe
-	litModePct  int   // probability (percent) that the program is "mostly literal": data is read only inside a few chosen kinds of body; and of text-only programs
-	brokenPct   int   // probability (percent) of one syntactically broken tag at top level (the program then fails to parse)
-	brokenKinds []int // restrict broken tags to these catalogue entries (swarm)
-	noise       bool  // multi-line strings / comments between tags (C15)
-	ctxProbes   bool  // emit ck() context probes and pbd() {..} detached-root block helpers (C10 inside renders)
-	splitTags   bool  // break single-statement tags across lines at safe points (C15: the tag still begins on the same line)
-	sharedSafe  bool  // never mutate data that may live in a shared parent (always true today)
-	maxPieces   int
-	maxDepth    int
-	noPartials  bool
-	sideEffects bool // C13: side-effecting hash values etc. (po/pv logging is always on)
+	probes        bool  // emit probes
+	probePct      int   // probability (percent) of wrapping an expression in a probe
+	mapRegions    bool  // emit for loops over a multi-entry Go map, inside region markers
+	pureMapBody   bool  // ... with a probe-free body, so call order does not depend on the visiting order (C13/C14)
+	tolerant      bool  // emit uses of the unbound identifier zz
+	toleratedOnly bool  // ... only where the property tolerates it (programs that must still render: probes + zz)
+	failing       bool  // may emit one naturally failing statement
+	failPct       int   // ... with this probability (default 100)
+	failNested    bool  // instead: one failing operation somewhere nested, guarded by a marker probe
+	litModePct    int   // probability (percent) that the program is "mostly literal": data is read only inside a few chosen kinds of body; and of text-only programs
+	brokenPct     int   // probability (percent) of one syntactically broken tag at top level (the program then fails to parse)
+	brokenKinds   []int // restrict broken tags to these catalogue entries (swarm)
+	noise         bool  // multi-line strings / comments between tags (C15)
+	ctxProbes     bool  // emit ck() context probes and pbd() {..} detached-root block helpers (C10 inside renders)
+	splitTags     bool  // break single-statement tags across lines at safe points (C15: the tag still begins on the same line)
+	sharedSafe    bool  // never mutate data that may live in a shared parent (always true today)
+	maxPieces     int
+	maxDepth      int
+	noPartials    bool
+	sideEffects   bool // C13: side-effecting hash values etc. (po/pv logging is always on)
 }
 
 type gen struct {
@@ -542,7 +545,7 @@ func (g *gen) rawExpr(k kind, depth int, class string) string {
 				if g.pct("pathfor", 20) {
 					g.feat("path_for")
 					if g.pct("pathforstruct", 50) {
-						return "pathFor(car)"
+						return []string{"pathFor(car)", "pathFor(car2)", "pathFor(page)", "pathFor(car)"}[g.intn("pathforwhich", 0, 3)]
 					}
 					return "pathFor(" + g.expr(kStr, depth-1, "go-helper-arg") + ")"
 				}
@@ -876,6 +879,10 @@ func (g *gen) piece(depth int) {
 				return
 			}
 		}
+	}
+	if g.o.splitTags && g.inFn == 0 && g.pct("multistmt", 6) {
+		g.multiStmtTagPiece(depth)
+		return
 	}
 	if g.o.ctxProbes && g.pct("ctxprobe", 25) {
 		g.frames = 0
@@ -1247,6 +1254,57 @@ func (g *gen) fnPiece(depth int) {
 		g.tag("<%=", name+"("+g.expr(kStr, 1, "user-fn-arg")+")", "%>")
 	}
 	g.inFn--
+}
+
+// multiStmtTagPiece writes ONE code tag with several statements, each on a line of its own, with `#` line comments
+// between them. For a statement that begins on a later line than its tag, C15's wording ("the line on which the tag
+// containing the failing statement begins") and plush's behaviour (the statement's own line) differ; both readings
+// are accepted for such sites (Site.AltLine) — but nothing else is: not the line of a comment, of another
+// statement, or of the closing delimiter.
+func (g *gen) multiStmtTagPiece(depth int) {
+	g.feat("multi_statement_tag")
+	tagLine := g.cur.line
+	g.cur.write("<%\n")
+	n := g.size("nstmts", 2, 4)
+	for i := 0; i < n; i++ {
+		if g.pct("stmtcomment", 50) {
+			g.cur.write([]string{"  # a comment\n", "# another one, with a \"quote\" and a %\n", "  #\n"}[g.intn("stmtcommentkind", 0, 2)])
+		}
+		g.frames = 0
+		g.pending = g.pending[:0]
+		var stmt string
+		switch g.intn("stmtkind", 0, 2) {
+		case 0:
+			name := g.fresh("mv")
+			stmt = "let " + name + " = " + g.expr(kInt, 1, "let-value")
+			g.scope = append(g.scope, variable{name: name, k: kInt})
+		case 1:
+			name := g.fresh("mv")
+			stmt = "let " + name + " = " + g.expr(kStr, 1, "let-value")
+			g.scope = append(g.scope, variable{name: name, k: kStr})
+		default:
+			if vs := g.vars(kInt); len(vs) > 0 {
+				stmt = vs[g.intn("asg", 0, len(vs)-1)].name + " = " + g.expr(kInt, 1, "assign-value")
+			} else {
+				name := g.fresh("mv")
+				stmt = "let " + name + " = " + g.expr(kBool, 1, "let-value")
+				g.scope = append(g.scope, variable{name: name, k: kBool})
+			}
+		}
+		stmtLine := g.cur.line
+		for _, s := range g.pending {
+			s.Line = tagLine
+			if g.cur.top != 0 {
+				s.TopLine = g.cur.top
+			} else {
+				s.TopLine = tagLine
+				s.AltLine = stmtLine
+			}
+		}
+		g.pending = g.pending[:0]
+		g.cur.write("  " + stmt + "\n")
+	}
+	g.cur.write("%>")
 }
 
 func (g *gen) arrayPiece(depth int) {
@@ -1637,7 +1695,7 @@ func (g *gen) noisePiece() {
 func (g *gen) tolerantPiece(depth int) {
 	g.feat("tolerant")
 	g.frames = 0
-	if g.nest > 0 || g.pct("tolerated", 50) {
+	if g.nest > 0 || g.o.toleratedOnly || g.pct("tolerated", 50) {
 		c := g.intn("tol", 0, 7)
 		var cls, body string
 		switch c {
@@ -1732,7 +1790,25 @@ func (g *gen) failingPiece() {
 		{"unknown-identifier-near-bound-names", "n3 + 1"},
 		{"unknown-identifier-near-bound-names-2", "s3"},
 	}...)
+	kinds = append(kinds, []struct{ kind, body string }{
+		{"missing-field-mid-path", "obj.Nofield.X"},
+		{"missing-field-deep-in-path", "obj.Inner.Nofield.Y"},
+		{"field-of-a-number", "n1.Foo.Bar"},
+	}...)
 	k := kinds[g.intn("failkind", 0, len(kinds)-1)]
+	if k.body != "" && !strings.Contains(k.kind, "unknown-identifier") && g.pct("failframe", 50) {
+		// the failing operation sits in a frame that tolerates an UNKNOWN IDENTIFIER (condition, operand of
+		// ! == != && ||): a failed operation is not an unknown identifier, the render must fail all the same
+		frames := []struct{ name, f string }{
+			{"not", "!(%s)"}, {"eq-left", "(%s) == 1"}, {"ne-left", "(%s) != 1"}, {"and-left", "(%s) && true"}, {"or-left", "(%s) || true"},
+			{"and-right", "true && (%s)"}, {"or-right", "false || (%s)"}, {"eq-right", "1 == (%s)"},
+			{"if-condition", "if (%s) { return 1 } else { return 2 }"}, {"else-if-condition", "if (false) { return 1 } else if (%s) { return 2 }"},
+		}
+		fr := frames[g.intn("failframekind", 0, len(frames)-1)]
+		k.kind += "@" + fr.name
+		k.body = fmt.Sprintf(fr.f, k.body)
+		g.feat("failing_operation_in_tolerant_frame")
+	}
 	g.p.Failing = k.kind
 	if g.nest > 0 || g.cur.name != "" {
 		// nested (in a body or a partial): guard with a marker probe that is
@@ -1779,7 +1855,15 @@ func (g *gen) failingPiece() {
 		g.tag("<%", "}", "%>")
 	default:
 		g.p.FailLine = g.cur.line
-		g.tag("<%=", k.body, "%>")
+		if g.o.splitTags && g.pct("failmultistmt", 20) {
+			// the failing statement is the last of several in one code tag, after a comment line
+			g.feat("failing_statement_in_multi_statement_tag")
+			g.cur.write("<%\n  let " + g.fresh("mv") + " = 1\n  # the next statement fails\n")
+			g.p.FailAltLine = g.cur.line
+			g.cur.write("  let " + g.fresh("mv") + " = " + k.body + "\n%>")
+		} else {
+			g.tag("<%=", k.body, "%>")
+		}
 	}
 	g.nl()
 }
@@ -1811,6 +1895,13 @@ var brokenTags = []string{
 	"<%= for (i, v) xs { %>\nbody\n\n<% } %>",
 	"<%= if n1 { %>\nbody\n<% } %>",
 	"<%= fn(a { return a } %>\nx\n<%= 1 ^ 2 %>\n<% let = 3 %>",
+	// a for header that never closes its parenthesis: the parser looks ahead for ')' and gives up at a '{' in a
+	// later tag, or at the end of the input; the error is the header's
+	"<%= for (x in xs %>a<% } %>\nlater <%= toJSON({\"a\": 1}) %>\n",
+	"<%= for (x in xs %>a\nlater <%= toJSON({\"a\": 1}) %>\n",
+	"<%= for (x, y in xs %>a\n\n<% let h = {\"a\": 1} %>\nend",
+	"<%= for (x in xs %>a\nnothing more\n",
+	"<%= for x in xs { %>a<% } %>\nmore\n",
 }
 
 // genProgram draws one program.
